@@ -504,6 +504,66 @@ example :
     ∧ (specPull (fun _ t => if t.length < 4 then .incomplete else .error) 7 1 [1, 10, 2, 10, 3, 10]).2.1
       = [3, 10] := by decide
 
+/-! ### where a command line ends (aliases replaced by nothing included) -/
+
+/-- ★ `Parser::list` stops at a newline and leaves it: if, after alias substitution (an alias replaced by
+    nothing — empty, blank or comment-only value — simply disappears), the next token is a newline, the
+    list is over and the newline is not consumed. -/
+theorem list_stops_at_newline (cfg : PCfg) (n : Nat) (ts rest : List Tok)
+    (h : substAlias cfg 8 ts = .nl :: rest) : pList cfg (n + 1) ts = .ok [] (.nl :: rest) := by
+  rw [pList]
+  simp [h, startsCmd, openTok]
+
+/-- ★ a newline after a `;` separator ends the command line **whatever aliases were substituted before
+    it**: when the and-or list before the `;` is `c` and what follows the `;` is, after alias
+    substitution, a newline, the list is exactly `[c]` and the newline is left for `command_line`,
+    which ends there.  (After `&&` / `||` newlines are skipped — `skipNlAlias` — and the command
+    continues on the next line; after `;` they are not.) -/
+theorem separator_newline_ends_list (cfg : PCfg) (n : Nat) (ts rest r r' : List Tok) (t : Tok) (c : Cmd)
+    (h1 : substAlias cfg 8 ts = t :: rest) (hs : startsCmd t = true)
+    (h2 : pAndOr cfg (n + 1) (t :: rest) = .ok c (.op ";" :: r))
+    (h3 : substAlias cfg 8 r = .nl :: r') :
+    pList cfg (n + 2) ts = .ok [c] (.nl :: r') := by
+  rw [pList]
+  simp only [h1, hs, Bool.not_true, Bool.false_eq_true, if_false, h2]
+  rw [list_stops_at_newline cfg n r r' h3]
+
+/-- the outcome of a parse, for examples -/
+def ParseRes.commands : ParseRes → Option Nat
+  | .ok cs => some cs.length
+  | _ => none
+
+/-- `read`-like line ending in `; n1` with `n1` an alias for nothing: one complete command line of one
+    command — not incomplete, the following line is not needed -/
+example : (parseLine { aliases := [("n1", "")], portable := false, eof := false }
+    "st 0; n1\n".toList).commands = some 1 := by decide
+
+/-- with a comment-only value, and after `&&` (where the command does continue on the next line) -/
+example : (parseLine { aliases := [("n3", "# note")], portable := false, eof := false }
+    ":; n3\n".toList).commands = some 1
+  ∧ (parseLine { aliases := [("n1", "")], portable := false, eof := false }
+    ": && n1\n".toList).isIncomplete = true := by decide
+
+/-- lines read = lines needed: when the first line alone is a complete command for the parser in
+    force, exactly that line is pulled -/
+theorem pull_one_line (parse : Bool → List Byte → ParseRes) (inp : List Byte) (hne : inp ≠ [])
+    (h : (parse false (takeLines 1 inp).1).isIncomplete = false) :
+    (pull parse (inp.length + 1) [] inp).text = (takeLines 1 inp).1
+    ∧ (pull parse (inp.length + 1) [] inp).rest = (takeLines 1 inp).2 := by
+  obtain ⟨k, h1, h2, h3, h4, h5⟩ := pull_exact parse inp
+  have hk : k = 1 := by
+    rcases Nat.lt_trichotomy k 1 with hlt | heq | hgt
+    · have hk0 : k = 0 := by omega
+      subst hk0
+      rcases h5 with ⟨a, _⟩ | ⟨a, _⟩
+      · omega
+      · rw [h2] at a; simp [takeLines] at a; exact absurd a hne
+    · exact heq
+    · have := h4 1 (by omega) hgt
+      rw [h] at this; exact absurd this (by simp)
+  subst hk
+  exact ⟨h1, h2⟩
+
 /-- ★ **standard input is in blocking mode whenever a command runs, whatever mode it was inherited in**
     (POSIX sh, STDIN: "if the standard input to sh is a FIFO or terminal device and is set to
     non-blocking reads, then sh shall enable blocking reads on standard input").  `prepareInput` clears
